@@ -318,7 +318,7 @@ def run(ctx, res):
         return
     r, cg, eff = ctx.roles, ctx.cg, ctx.eff
     hc = HashCost(ctx, res)
-    sites = [c for p, cs in cg.calls.items() for c in cs if hc.is_hash_site(c)]
+    sites = [c for p, cs in cg.calls.items() if "#inl" not in p for c in cs if hc.is_hash_site(c)]
     res.floor("C20.hash-sites", len(sites), 1)
     res.analysed["hash_sites"] = [{"in": c.body.path, "at": c.loc} for c in sites]
     # entry points: pub fns of the cache, trait impls of the cache, all methods of the iterator ADTs
